@@ -81,6 +81,11 @@ def prefixes(tier, rnd):
             yield ("multiline-token-later", "first line" + nl + tok + " later line", None)
             yield ("multiline-token-later", "known references:" + nl + tok + nl + "[ref: 12] another", None)
             yield ("multiline-token-later", nl + tok + " after a leading line break", None)
+    # a `breadlog:no-kvp` directive in a project that is not in structured mode changes nothing: presence is decided by the message alone
+    for msg in ["[ref: 2] under a directive", "[ref: 4294967295] top under a directive", "plain under a directive", "[ref:3] near miss under a directive",
+                "[ref: 12]", ""]:
+        for d in ["// breadlog:no-kvp", "/* BREADLOG:NO-KVP */", "//breadlog:no-kvp"]:
+            yield ("nokvp-directive", msg + " " + d[:2], ("nokvp", d))
     # ref-like text elsewhere
     for tok in ["[ref: 5] ", "[ref: 4294967295]", "ref = 5; "]:
         yield ("elsewhere-later", "msg then " + tok + "later", None)
@@ -95,6 +100,8 @@ def stmt_text(msg, wrap, i):
     if wrap is None:
         return '%s!("' % name, msg, '");'
     kind, tok = wrap
+    if kind == "nokvp":
+        return '%s\n    %s!("' % (tok, name), msg, '");'
     if kind == "target":
         return '%s!(target: "%s", "' % (name, tok), msg, '");'
     if kind == "kv":
